@@ -6,15 +6,33 @@
 //!   ctx new|islands          SsrSharedContext::new() / new_islands()                  -> ok
 //!   hyd 0|1                  set_is_hydrating                                         -> ok
 //!   id                       next_id() (an error boundary / error id)                 -> id <n>
-//!   write str|json <s>       what a resource does (leptos_server/src/resource.rs): id = next_id();
-//!                            if get_is_hydrating() { write_async(id, future) } — the future is a
-//!                            oneshot receiver; <s> is the *encoded* string the codec produced
-//!                                                                                     -> w <k> <id> <registered 0|1>
+//!   write <kind> <carrier> <value> [<enc>]
+//!                            a value handed to the shared context. kind = the (type, codec) pair:
+//!                              str   String, FromToStringCodec          jstr  String, JsonSerdeCodec
+//!                              json  serde_json::Value, JsonSerdeCodec (value = the JSON text)
+//!                              slite String, SerdeLite<JsonSerdeCodec>  mini  String, MiniserdeCodec
+//!                              bytes Vec<u8>, a custom binary codec     rkyvs String / rkyvi i64, RkyvCodec
+//!                            (slite mini rkyv*: <enc> = the codec's output, which the model does not compute;
+//!                            the harness checks the real encoder reproduces it). carrier:
+//!                              d   by hand, as resource.rs does: id = next_id(); if get_is_hydrating() { write_async(id, fut) }
+//!                              ar  ArcResource::new_with_options   r  Resource::new_with_options
+//!                              ao  ArcOnceResource::new_with_options   o  OnceResource::new_with_options
+//!                              sv  SharedValue::new_with_encoding (ready at once)
+//!                            created under an Owner whose shared context forwards to the real SsrSharedContext
+//!                            and records next_id / write_async                         -> w <k> <id> <registered 0|1> enc=<encoded string>
 //!   err <b> <e> <msg>        register_error(boundary b, error id e, Error whose Display is msg) -> ok
 //!   seal <b>                 seal_errors                                              -> ok
 //!   inc <id>                 set_incomplete_chunk                                     -> ok
 //!   start                    pending_data()                                           -> ok | skip
-//!   complete <k>             send write k's value on its oneshot                      -> ok | skip
+//!   complete <k>             write k's load finishes (oneshot), the executor runs until idle -> ok | skip
+//!   consume                  the other server exit: `consume_buffers()` (custom hydration contexts) -> ok | skip
+//!   cpoll                    poll that future once: `pending` | done <id:s,..> ## verdict (every value once, under
+//!                            its id, decoding to the server's value)
+//!   hydrate                  the client: the carriers of the flag-on creations are created again, in order, under a
+//!                            shared context = real HydrateSharedContext for ids/flags + read_data from what the browser
+//!                            twin evaluated out of the REAL script text (or the consume_buffers pairs)
+//!                                                                                     -> hydrate <k>:<ok|wrong|none>,.. fetches=<n> ## verdict
+//!                            (ok = the carrier starts with the server's value; fetches = client-side loads that ran)
 //!   poll                     poll_next once with a no-op waker                        ->
 //!        chunk <wrapped> tok=<ok|pos|none> danger=<0|1> reads=<id:s,..|-> errs=<b:e:s,..|-> [inc=<ids>] ## verdict
 //!      | chunk <wrapped> tok=.. danger=.. syntax-error ## verdict | pending | end ## verdict | skip
@@ -36,14 +54,30 @@
 //! array/assignment/push statements; `mod html`: the WHATWG script-data tokenizer states):
 //!  (i) every id reads back exactly the written string (JSON codec: the same serde_json value),
 //!  (ii) no chunk can end the script element / start markup, (iii) each value exactly once.
-use codee::{string::JsonSerdeCodec, Decoder, Encoder};
 use futures::{channel::oneshot, Stream};
 use hx_common::*;
 use hydration_context::{
-    HydrateSharedContext, PinnedStream, SerializedDataId, SharedContext, SsrSharedContext,
+    HydrateSharedContext, PinnedFuture, PinnedStream, SerializedDataId, SharedContext, SsrSharedContext,
 };
-use leptos_server::{FromEncodedStr, IntoEncodedString};
+use leptos_server::codee::{
+    binary::RkyvCodec,
+    string::{FromToStringCodec, JsonSerdeCodec, MiniserdeCodec},
+    Decoder, Encoder, SerdeLite,
+};
+use leptos_server::{
+    ArcOnceResource, ArcResource, FromEncodedStr, IntoEncodedString, OnceResource, Resource, SharedValue,
+};
+use reactive_graph::{owner::Owner, traits::ReadUntracked};
+use std::any::Any;
+use std::borrow::Borrow;
 use std::collections::HashMap;
+use std::fmt::Debug;
+use std::future::Future;
+use std::pin::Pin;
+use std::sync::{
+    atomic::{AtomicUsize, Ordering},
+    Arc, Mutex,
+};
 use std::task::{Context, Poll};
 use throw_error::{Error, ErrorId};
 
@@ -579,12 +613,516 @@ impl std::fmt::Display for Msg {
 }
 impl std::error::Error for Msg {}
 
+// ------------------------------------------------------------------ codecs and value kinds
+
+/// A user-defined binary codec (`Encoded = Vec<u8>`): the value *is* the bytes.
+struct RawBytes;
+impl Encoder<Vec<u8>> for RawBytes {
+    type Error = ();
+    type Encoded = Vec<u8>;
+    fn encode(val: &Vec<u8>) -> Result<Vec<u8>, ()> {
+        Ok(val.clone())
+    }
+}
+impl Decoder<Vec<u8>> for RawBytes {
+    type Error = ();
+    type Encoded = [u8];
+    fn decode(val: &[u8]) -> Result<Vec<u8>, ()> {
+        Ok(val.to_vec())
+    }
+}
+
+/// value kinds = (Rust type, codec) pairs leptos_server offers (`Resource::new_str`, `::new`,
+/// `::new_serde_lite`, `::new_miniserde`, `::new_rkyv`, a custom binary codec)
+#[derive(Clone, Copy, PartialEq, Debug)]
+enum Kind {
+    Str,   // String, FromToStringCodec
+    JStr,  // String, JsonSerdeCodec
+    Json,  // serde_json::Value, JsonSerdeCodec (the op carries the JSON text)
+    SLite, // String, SerdeLite<JsonSerdeCodec>
+    Mini,  // String, MiniserdeCodec
+    Bytes, // Vec<u8>, RawBytes        (base64)
+    RkyvS, // String, RkyvCodec        (base64 of the archive)
+    RkyvI, // i64, RkyvCodec
+}
+impl Kind {
+    fn parse(s: &str) -> Option<Kind> {
+        Some(match s {
+            "str" => Kind::Str,
+            "jstr" => Kind::JStr,
+            "json" => Kind::Json,
+            "slite" => Kind::SLite,
+            "mini" => Kind::Mini,
+            "bytes" => Kind::Bytes,
+            "rkyvs" => Kind::RkyvS,
+            "rkyvi" => Kind::RkyvI,
+            _ => return None,
+        })
+    }
+    /// kinds whose op carries the expected encoded form as a second payload (not modelled in Lean)
+    fn has_aux(self) -> bool {
+        matches!(self, Kind::SLite | Kind::Mini | Kind::RkyvS | Kind::RkyvI)
+    }
+}
+
+/// how the value reaches the shared context
+#[derive(Clone, Copy, PartialEq, Debug)]
+enum Variant {
+    Direct,  // next_id + write_async by hand, as resource.rs does
+    ArcRes,  // ArcResource::new_with_options
+    Res,     // Resource::new_with_options
+    ArcOnce, // ArcOnceResource::new_with_options
+    Once,    // OnceResource::new_with_options
+    Shared,  // SharedValue::new_with_encoding
+}
+impl Variant {
+    fn parse(s: &str) -> Option<Variant> {
+        Some(match s {
+            "d" => Variant::Direct,
+            "ar" => Variant::ArcRes,
+            "r" => Variant::Res,
+            "ao" => Variant::ArcOnce,
+            "o" => Variant::Once,
+            "sv" => Variant::Shared,
+            _ => return None,
+        })
+    }
+}
+
+trait TV: Clone + PartialEq + Send + Sync + 'static {
+    fn parse(raw: &[u8]) -> Option<Self>;
+}
+impl TV for String {
+    fn parse(raw: &[u8]) -> Option<Self> {
+        String::from_utf8(raw.to_vec()).ok()
+    }
+}
+impl TV for Vec<u8> {
+    fn parse(raw: &[u8]) -> Option<Self> {
+        Some(raw.to_vec())
+    }
+}
+impl TV for serde_json::Value {
+    fn parse(raw: &[u8]) -> Option<Self> {
+        serde_json::from_slice(raw).ok()
+    }
+}
+impl TV for i64 {
+    fn parse(raw: &[u8]) -> Option<Self> {
+        std::str::from_utf8(raw).ok()?.parse().ok()
+    }
+}
+
+macro_rules! with_kind {
+    ($kind:expr, $f:ident ( $($args:expr),* )) => {
+        match $kind {
+            Kind::Str => $f::<String, FromToStringCodec>($($args),*),
+            Kind::JStr => $f::<String, JsonSerdeCodec>($($args),*),
+            Kind::Json => $f::<serde_json::Value, JsonSerdeCodec>($($args),*),
+            Kind::SLite => $f::<String, SerdeLite<JsonSerdeCodec>>($($args),*),
+            Kind::Mini => $f::<String, MiniserdeCodec>($($args),*),
+            Kind::Bytes => $f::<Vec<u8>, RawBytes>($($args),*),
+            Kind::RkyvS => $f::<String, RkyvCodec>($($args),*),
+            Kind::RkyvI => $f::<i64, RkyvCodec>($($args),*),
+        }
+    };
+}
+
+/// server side: `Ser::encode(value).into_encoded_string()`
+fn enc_of<T, Ser>(raw: &[u8]) -> Option<String>
+where
+    T: TV,
+    Ser: Encoder<T>,
+    <Ser as Encoder<T>>::Encoded: IntoEncodedString,
+{
+    Some(Ser::encode(&T::parse(raw)?).ok()?.into_encoded_string())
+}
+
+#[derive(Clone, Copy, PartialEq, Debug)]
+enum Status {
+    Ok,
+    Wrong,
+    None,
+}
+impl Status {
+    fn show(self) -> &'static str {
+        match self {
+            Status::Ok => "ok",
+            Status::Wrong => "wrong",
+            Status::None => "none",
+        }
+    }
+    fn of<T: PartialEq>(got: Option<T>, expected: &T) -> Status {
+        match got {
+            Some(v) if &v == expected => Status::Ok,
+            Some(_) => Status::Wrong,
+            None => Status::None,
+        }
+    }
+}
+
+/// client side: `FromEncodedStr::from_encoded_str` then `Ser::decode`, compared with the server's value
+fn dec_status<T, Ser>(raw: &[u8], read: &str) -> Status
+where
+    T: TV,
+    Ser: Decoder<T>,
+    <Ser as Decoder<T>>::Encoded: FromEncodedStr,
+{
+    let Some(expected) = T::parse(raw) else { return Status::None };
+    let got = <<Ser as Decoder<T>>::Encoded as FromEncodedStr>::from_encoded_str(read)
+        .ok()
+        .and_then(|e| Ser::decode(e.borrow()).ok());
+    Status::of(got, &expected)
+}
+
+// ------------------------------------------------------------------ observing the shared context
+
+#[derive(Debug, Clone, PartialEq)]
+enum Ev {
+    NextId(usize),
+    WriteAsync(usize),
+}
+
+/// Forwards everything to the real `SsrSharedContext`; records the ids handed out and the
+/// `write_async` calls, so that the harness sees what a real `Resource` did.
+#[derive(Debug)]
+struct Spy {
+    inner: Arc<SsrSharedContext>,
+    log: Mutex<Vec<Ev>>,
+}
+impl SharedContext for Spy {
+    fn is_browser(&self) -> bool {
+        self.inner.is_browser()
+    }
+    fn next_id(&self) -> SerializedDataId {
+        let id = self.inner.next_id();
+        self.log.lock().unwrap().push(Ev::NextId(id.clone().into_inner()));
+        id
+    }
+    fn write_async(&self, id: SerializedDataId, fut: PinnedFuture<String>) {
+        self.log.lock().unwrap().push(Ev::WriteAsync(id.clone().into_inner()));
+        self.inner.write_async(id, fut)
+    }
+    fn read_data(&self, id: &SerializedDataId) -> Option<String> {
+        self.inner.read_data(id)
+    }
+    fn await_data(&self, id: &SerializedDataId) -> Option<String> {
+        self.inner.await_data(id)
+    }
+    fn pending_data(&self) -> Option<PinnedStream<String>> {
+        self.inner.pending_data()
+    }
+    fn during_hydration(&self) -> bool {
+        self.inner.during_hydration()
+    }
+    fn hydration_complete(&self) {
+        self.inner.hydration_complete()
+    }
+    fn get_is_hydrating(&self) -> bool {
+        self.inner.get_is_hydrating()
+    }
+    fn set_is_hydrating(&self, is_hydrating: bool) {
+        self.inner.set_is_hydrating(is_hydrating)
+    }
+    fn take_errors(&self) -> Vec<(SerializedDataId, ErrorId, Error)> {
+        self.inner.take_errors()
+    }
+    fn errors(&self, boundary_id: &SerializedDataId) -> Vec<(ErrorId, Error)> {
+        self.inner.errors(boundary_id)
+    }
+    fn seal_errors(&self, boundary_id: &SerializedDataId) {
+        self.inner.seal_errors(boundary_id)
+    }
+    fn register_error(&self, error_boundary: SerializedDataId, error_id: ErrorId, error: Error) {
+        self.inner.register_error(error_boundary, error_id, error)
+    }
+    fn defer_stream(&self, wait_for: PinnedFuture<()>) {
+        self.inner.defer_stream(wait_for)
+    }
+    fn await_deferred(&self) -> Option<PinnedFuture<()>> {
+        self.inner.await_deferred()
+    }
+    fn set_incomplete_chunk(&self, id: SerializedDataId) {
+        self.inner.set_incomplete_chunk(id)
+    }
+    fn get_incomplete_chunk(&self, id: &SerializedDataId) -> bool {
+        self.inner.get_incomplete_chunk(id)
+    }
+}
+
+/// The browser side: ids and flags from the REAL `HydrateSharedContext` (it builds natively);
+/// `read_data` = `__RESOLVED_RESOURCES[id]` as evaluated by the browser twin from the real script
+/// text (or the pairs a custom context got from `consume_buffers`).
+struct MockHydrate {
+    real: HydrateSharedContext,
+    map: HashMap<usize, String>,
+}
+impl Debug for MockHydrate {
+    fn fmt(&self, f: &mut std::fmt::Formatter<'_>) -> std::fmt::Result {
+        f.debug_struct("MockHydrate").finish()
+    }
+}
+impl SharedContext for MockHydrate {
+    fn is_browser(&self) -> bool {
+        true
+    }
+    fn next_id(&self) -> SerializedDataId {
+        self.real.next_id()
+    }
+    fn write_async(&self, id: SerializedDataId, fut: PinnedFuture<String>) {
+        self.real.write_async(id, fut)
+    }
+    fn read_data(&self, id: &SerializedDataId) -> Option<String> {
+        self.map.get(&id.clone().into_inner()).cloned()
+    }
+    fn await_data(&self, _id: &SerializedDataId) -> Option<String> {
+        None
+    }
+    fn pending_data(&self) -> Option<PinnedStream<String>> {
+        None
+    }
+    fn during_hydration(&self) -> bool {
+        self.real.during_hydration()
+    }
+    fn hydration_complete(&self) {
+        self.real.hydration_complete()
+    }
+    fn get_is_hydrating(&self) -> bool {
+        self.real.get_is_hydrating()
+    }
+    fn set_is_hydrating(&self, is_hydrating: bool) {
+        self.real.set_is_hydrating(is_hydrating)
+    }
+    fn take_errors(&self) -> Vec<(SerializedDataId, ErrorId, Error)> {
+        vec![]
+    }
+    fn errors(&self, _boundary_id: &SerializedDataId) -> Vec<(ErrorId, Error)> {
+        vec![]
+    }
+    fn seal_errors(&self, _boundary_id: &SerializedDataId) {}
+    fn register_error(&self, _b: SerializedDataId, _e: ErrorId, _error: Error) {}
+    fn defer_stream(&self, _wait_for: PinnedFuture<()>) {}
+    fn await_deferred(&self) -> Option<PinnedFuture<()>> {
+        None
+    }
+    fn set_incomplete_chunk(&self, _id: SerializedDataId) {}
+    fn get_incomplete_chunk(&self, _id: &SerializedDataId) -> bool {
+        false
+    }
+}
+
+// ------------------------------------------------------------------ real resources on both sides
+
+type Completer = Box<dyn FnOnce()>;
+
+/// Creates the value's carrier on the server under `owner` (shared context = the spy around the
+/// real `SsrSharedContext`). Returns what must be kept alive and how to complete the load.
+fn server_make<T, Ser>(
+    owner: &Owner,
+    ctx: &Arc<Spy>,
+    variant: Variant,
+    raw: &[u8],
+) -> Option<(Box<dyn Any>, Option<Completer>)>
+where
+    T: TV,
+    Ser: Encoder<T> + Decoder<T> + Send + 'static,
+    <Ser as Encoder<T>>::Error: Debug,
+    <Ser as Decoder<T>>::Error: Debug,
+    <<Ser as Decoder<T>>::Encoded as FromEncodedStr>::DecodingError: Debug,
+    <Ser as Encoder<T>>::Encoded: IntoEncodedString,
+    <Ser as Decoder<T>>::Encoded: FromEncodedStr,
+{
+    let value = T::parse(raw)?;
+    let (tx, rx) = oneshot::channel::<T>();
+    let completer: Completer = {
+        let value = value.clone();
+        Box::new(move || {
+            let _ = tx.send(value);
+        })
+    };
+    // a load that finishes when the harness says so
+    let load = async move {
+        match rx.await {
+            Ok(v) => v,
+            Err(_) => futures::future::pending::<T>().await,
+        }
+    };
+    Some(match variant {
+        Variant::Direct => {
+            // leptos_server/src/resource.rs `new_with_options`, by hand
+            let hyd = ctx.get_is_hydrating();
+            let id = ctx.next_id();
+            if hyd {
+                ctx.write_async(
+                    id,
+                    Box::pin(async move { Ser::encode(&load.await).unwrap().into_encoded_string() }),
+                );
+                (Box::new(()), Some(completer))
+            } else {
+                (Box::new(()), None)
+            }
+        }
+        Variant::ArcRes | Variant::Res => {
+            let slot = Arc::new(Mutex::new(Some(load)));
+            let fetcher = move |_: ()| {
+                let load = slot.lock().unwrap().take();
+                async move {
+                    match load {
+                        Some(load) => load.await,
+                        None => futures::future::pending::<T>().await,
+                    }
+                }
+            };
+            let keep: Box<dyn Any> = owner.with(|| {
+                if variant == Variant::ArcRes {
+                    Box::new(ArcResource::<T, Ser>::new_with_options(|| (), fetcher, false)) as Box<dyn Any>
+                } else {
+                    Box::new(Resource::<T, Ser>::new_with_options(|| (), fetcher, false)) as Box<dyn Any>
+                }
+            });
+            (keep, Some(completer))
+        }
+        Variant::ArcOnce | Variant::Once => {
+            let keep: Box<dyn Any> = owner.with(|| {
+                if variant == Variant::ArcOnce {
+                    Box::new(ArcOnceResource::<T, Ser>::new_with_options(load, false)) as Box<dyn Any>
+                } else {
+                    Box::new(OnceResource::<T, Ser>::new_with_options(load, false)) as Box<dyn Any>
+                }
+            });
+            (keep, Some(completer))
+        }
+        Variant::Shared => {
+            let keep: Box<dyn Any> =
+                owner.with(|| Box::new(SharedValue::<T, Ser>::new_with_encoding(move || value).into_inner()) as Box<dyn Any>);
+            (keep, None)
+        }
+    })
+}
+
+/// Creates the same carrier on the client under `owner` (shared context = `MockHydrate`) and
+/// reports what it holds right after creation. `fetches` counts client-side loads / initialisers.
+fn client_make<T, Ser>(
+    owner: &Owner,
+    ctx: &Arc<dyn SharedContext + Send + Sync>,
+    variant: Variant,
+    raw: &[u8],
+    fetches: &Arc<AtomicUsize>,
+    keep: &mut Vec<Box<dyn Any>>,
+) -> Status
+where
+    T: TV,
+    Ser: Encoder<T> + Decoder<T> + Send + 'static,
+    <Ser as Encoder<T>>::Error: Debug,
+    <Ser as Decoder<T>>::Error: Debug,
+    <<Ser as Decoder<T>>::Encoded as FromEncodedStr>::DecodingError: Debug,
+    <Ser as Encoder<T>>::Encoded: IntoEncodedString,
+    <Ser as Decoder<T>>::Encoded: FromEncodedStr,
+{
+    let Some(expected) = T::parse(raw) else { return Status::None };
+    // a client-side load: counted when it is polled, and it never finishes, so that whatever the
+    // resource holds can only have come from the server's data
+    let refetch = {
+        let fetches = Arc::clone(fetches);
+        move || {
+            fetches.fetch_add(1, Ordering::SeqCst);
+        }
+    };
+    let reinit = {
+        let (fetches, expected) = (Arc::clone(fetches), expected.clone());
+        move || {
+            fetches.fetch_add(1, Ordering::SeqCst);
+            expected
+        }
+    };
+    owner.with(|| match variant {
+        Variant::Direct => {
+            let id = ctx.next_id();
+            match ctx.read_data(&id) {
+                Some(s) => dec_status::<T, Ser>(raw, &s),
+                None => Status::None,
+            }
+        }
+        Variant::ArcRes => {
+            let r = ArcResource::<T, Ser>::new_with_options(
+                || (),
+                move |_| {
+                    // counted when the load is actually polled, not when the future is built
+                    let refetch = refetch.clone();
+                    async move {
+                        refetch();
+                        futures::future::pending::<T>().await
+                    }
+                },
+                false,
+            );
+            let got = r.try_read_untracked().and_then(|g| (*g).clone());
+            keep.push(Box::new(r));
+            Status::of(got, &expected)
+        }
+        Variant::Res => {
+            let r = Resource::<T, Ser>::new_with_options(
+                || (),
+                move |_| {
+                    // counted when the load is actually polled, not when the future is built
+                    let refetch = refetch.clone();
+                    async move {
+                        refetch();
+                        futures::future::pending::<T>().await
+                    }
+                },
+                false,
+            );
+            let got = r.try_read_untracked().and_then(|g| (*g).clone());
+            Status::of(got, &expected)
+        }
+        Variant::ArcOnce => {
+            let r = ArcOnceResource::<T, Ser>::new_with_options(
+                async move {
+                    refetch();
+                    futures::future::pending::<T>().await
+                },
+                false,
+            );
+            let got = r.try_read_untracked().and_then(|g| (*g).clone());
+            keep.push(Box::new(r));
+            Status::of(got, &expected)
+        }
+        Variant::Once => {
+            let r = OnceResource::<T, Ser>::new_with_options(
+                async move {
+                    refetch();
+                    futures::future::pending::<T>().await
+                },
+                false,
+            );
+            let got = r.try_read_untracked().and_then(|g| (*g).clone());
+            Status::of(got, &expected)
+        }
+        Variant::Shared => {
+            let before = fetches.load(Ordering::SeqCst);
+            let v = SharedValue::<T, Ser>::new_with_encoding(reinit).into_inner();
+            if fetches.load(Ordering::SeqCst) != before {
+                Status::None // the initialiser ran: nothing usable arrived
+            } else {
+                Status::of(Some(v), &expected)
+            }
+        }
+    })
+}
+
+// ------------------------------------------------------------------ the case state
+
 struct W {
     id: usize,
-    json: bool,
-    payload: String,
+    kind: Kind,
+    variant: Variant,
+    raw: Vec<u8>,
+    /// `Ser::encode(value).into_encoded_string()` computed by the real codec
+    enc: String,
     reg: bool,
     late: bool,
+    consumed: bool,
     completed: bool,
     emitted: usize,
 }
@@ -596,10 +1134,27 @@ struct E {
     emitted: bool,
 }
 
+/// what ran on the server, in order, and whether the flag was on (the client replays the ones
+/// that ran with the flag on)
+enum Created {
+    Write(usize, bool),
+    BareId(bool),
+}
+
+type ConsumeFut = Pin<Box<dyn Future<Output = Vec<(SerializedDataId, String)>>>>;
+
 struct Case {
-    sc: SsrSharedContext,
+    islands: bool,
+    sc: Arc<SsrSharedContext>,
+    spy: Arc<Spy>,
+    owner: Owner,
     stream: Option<PinnedStream<String>>,
-    senders: Vec<Option<oneshot::Sender<String>>>,
+    consume: Option<ConsumeFut>,
+    consume_started: bool,
+    consumed_pairs: Option<Vec<(usize, String)>>,
+    completers: Vec<Option<Completer>>,
+    keep: Vec<Box<dyn Any>>,
+    created: Vec<Created>,
     writes: Vec<W>,
     errs: Vec<E>,
     ever_sealed: Vec<usize>,
@@ -612,10 +1167,23 @@ struct Case {
 
 impl Case {
     fn new(islands: bool) -> Self {
+        sched::install();
+        sched::reset();
+        let sc = Arc::new(if islands { SsrSharedContext::new_islands() } else { SsrSharedContext::new() });
+        let spy = Arc::new(Spy { inner: Arc::clone(&sc), log: Mutex::new(vec![]) });
+        let owner = Owner::new_root(Some(Arc::clone(&spy) as Arc<dyn SharedContext + Send + Sync>));
         Case {
-            sc: if islands { SsrSharedContext::new_islands() } else { SsrSharedContext::new() },
+            islands,
+            sc,
+            spy,
+            owner,
             stream: None,
-            senders: vec![],
+            consume: None,
+            consume_started: false,
+            consumed_pairs: None,
+            completers: vec![],
+            keep: vec![],
+            created: vec![],
             writes: vec![],
             errs: vec![],
             ever_sealed: vec![],
@@ -626,22 +1194,23 @@ impl Case {
             final_seen: false,
         }
     }
+    /// drop everything of the previous case in an order that cannot panic
+    fn clear(&mut self) {
+        self.stream = None;
+        self.consume = None;
+        self.completers.clear();
+        self.keep.clear();
+        sched::reset();
+    }
 }
 
-fn same_value(json: bool, written: &str, read: &[u32]) -> bool {
-    // the client side of leptos_server: `FromEncodedStr::from_encoded_str` then `Ser::decode`
-    let Some(read_s) = read.iter().map(|&c| char::from_u32(c)).collect::<Option<String>>() else {
-        return false;
-    };
-    if json {
-        let a: Result<serde_json::Value, _> =
-            <JsonSerdeCodec as Decoder<serde_json::Value>>::decode(<str as FromEncodedStr>::from_encoded_str(written).unwrap());
-        let b: Result<serde_json::Value, _> =
-            <JsonSerdeCodec as Decoder<serde_json::Value>>::decode(<str as FromEncodedStr>::from_encoded_str(&read_s).unwrap());
-        matches!((a, b), (Ok(x), Ok(y)) if x == y)
-    } else {
-        <str as FromEncodedStr>::from_encoded_str(&read_s).unwrap() == written
-    }
+fn cps_to_string(read: &[u32]) -> Option<String> {
+    read.iter().map(|&c| char::from_u32(c)).collect()
+}
+
+fn same_value(kind: Kind, raw: &[u8], read: &[u32]) -> bool {
+    let Some(read_s) = cps_to_string(read) else { return false };
+    with_kind!(kind, dec_status(raw, &read_s)) == Status::Ok
 }
 
 fn data_class(payload: &str) -> &'static str {
@@ -736,8 +1305,8 @@ fn judge_chunk(c: &mut Case, chunk: &str) -> String {
             break;
         }
         w.emitted += 1;
-        if !same_value(w.json, &w.payload, v) {
-            r1 = r1.or(Some(data_class(&w.payload)));
+        if !same_value(w.kind, &w.raw, v) {
+            r1 = r1.or(Some(data_class(&w.enc)));
         }
     }
     // (i) + (iii) for errors
@@ -772,7 +1341,7 @@ fn judge_chunk(c: &mut Case, chunk: &str) -> String {
 }
 
 fn judge_end(c: &Case) -> &'static str {
-    if c.writes.iter().any(|w| w.reg && !w.late && w.emitted != 1) {
+    if c.writes.iter().any(|w| w.reg && !w.late && !w.consumed && w.emitted != 1) {
         "fail lost-value"
     } else if c.errs.iter().any(|x| !x.late && !x.emitted && !c.ever_sealed.contains(&x.b)) {
         "fail lost-error"
@@ -819,6 +1388,7 @@ fn op(c: &mut Case, tags: &HashMap<String, String>, line: &str) -> String {
     let w: Vec<&str> = line.split_whitespace().collect();
     match w.as_slice() {
         ["case", n] => {
+            c.clear();
             *c = Case::new(false);
             match tags.get(*n) {
                 Some(t) if !t.is_empty() => format!("case {n} tags={t}"),
@@ -826,38 +1396,65 @@ fn op(c: &mut Case, tags: &HashMap<String, String>, line: &str) -> String {
             }
         }
         ["ctx", k @ ("new" | "islands")] => {
+            c.clear();
             *c = Case::new(*k == "islands");
             "ok".into()
         }
         ["hyd", b @ ("0" | "1")] => {
-            c.sc.set_is_hydrating(*b == "1");
+            c.spy.set_is_hydrating(*b == "1");
             "ok".into()
         }
-        ["id"] => format!("id {}", c.sc.next_id().into_inner()),
-        ["write", enc @ ("str" | "json"), h] => {
-            let Some(payload) = unhex_str(h) else { return "bad-op".into() };
-            // leptos_server/src/resource.rs `new_with_options`
-            let hyd = c.sc.get_is_hydrating();
-            let id = c.sc.next_id();
-            let (tx, rx) = oneshot::channel::<String>();
-            if hyd {
-                c.sc.write_async(id.clone(), Box::pin(async move { rx.await.unwrap_or_default() }));
-                c.senders.push(Some(tx));
-            } else {
-                c.senders.push(None);
+        ["id"] => {
+            let hyd = c.spy.get_is_hydrating();
+            c.created.push(Created::BareId(hyd));
+            format!("id {}", c.spy.next_id().into_inner())
+        }
+        ["write", kind, variant, rest @ ..] => {
+            let (Some(kind), Some(variant)) = (Kind::parse(kind), Variant::parse(variant)) else {
+                return "bad-op".into();
+            };
+            let (raw, aux) = match (rest, kind.has_aux()) {
+                ([h], false) => (unhex(h), None),
+                ([h, x], true) => (unhex(h), unhex(x)),
+                _ => return "bad-op".into(),
+            };
+            let Some(raw) = raw else { return "bad-op".into() };
+            if kind.has_aux() && aux.is_none() {
+                return "bad-op".into();
             }
-            let id = id.into_inner();
+            let Some(enc) = with_kind!(kind, enc_of(&raw)) else { return "bad-op".into() };
+            let hyd = c.spy.get_is_hydrating();
+            let log_from = c.spy.log.lock().unwrap().len();
+            let Some((keep, completer)) = with_kind!(kind, server_make(&c.owner, &c.spy, variant, &raw)) else {
+                return "bad-op".into();
+            };
+            // let the resource start its load (it then waits for `complete`)
+            sched::run_until_idle(10_000);
+            let evs: Vec<Ev> = c.spy.log.lock().unwrap()[log_from..].to_vec();
+            let ids: Vec<usize> = evs.iter().filter_map(|e| if let Ev::NextId(i) = e { Some(*i) } else { None }).collect();
+            let regs: Vec<usize> = evs.iter().filter_map(|e| if let Ev::WriteAsync(i) = e { Some(*i) } else { None }).collect();
+            if ids.len() != 1 || regs.len() > 1 || regs.iter().any(|r| *r != ids[0]) {
+                return format!("w ? ids={ids:?} writes={regs:?} ## fail id-protocol");
+            }
+            let (id, reg) = (ids[0], regs.len() == 1);
             let k = c.writes.len();
+            c.keep.push(keep);
+            c.completers.push(if reg { completer } else { None });
+            c.created.push(Created::Write(k, hyd));
             c.writes.push(W {
                 id,
-                json: *enc == "json",
-                payload,
-                reg: hyd,
-                late: c.final_seen,
-                completed: false,
+                kind,
+                variant,
+                raw,
+                enc: enc.clone(),
+                reg,
+                late: c.final_seen || c.consume_started,
+                consumed: false,
+                // a SharedValue's future is ready at once
+                completed: reg && variant == Variant::Shared,
                 emitted: 0,
             });
-            format!("w {k} {id} {}", hyd as u8)
+            format!("w {k} {id} {} enc={}", reg as u8, hex(enc.as_bytes()))
         }
         ["err", b, e, h] => {
             let (Ok(b), Ok(e), Some(m)) = (b.parse::<usize>(), e.parse::<usize>(), unhex_str(h)) else {
@@ -894,14 +1491,126 @@ fn op(c: &mut Case, tags: &HashMap<String, String>, line: &str) -> String {
             if !wr.reg || wr.completed {
                 return "skip".into();
             }
-            match c.senders[k].take() {
-                Some(tx) => {
-                    let _ = tx.send(wr.payload.clone());
+            match c.completers[k].take() {
+                Some(done) => {
+                    done();
+                    // the resource's loading task stores the value
+                    sched::run_until_idle(10_000);
                     wr.completed = true;
                     "ok".into()
                 }
                 None => "skip".into(),
             }
+        }
+        ["consume"] => {
+            // the other server exit: `consume_buffers()` (custom hydration contexts)
+            if c.consume.is_some() || c.consumed_pairs.is_some() {
+                return "skip".into();
+            }
+            let sc = Arc::clone(&c.sc);
+            c.consume = Some(Box::pin(async move { sc.consume_buffers().await }));
+            "ok".into()
+        }
+        ["cpoll"] => {
+            let Some(fut) = c.consume.as_mut() else { return "skip".into() };
+            let w = sched::noop_waker();
+            let mut cx = Context::from_waker(&w);
+            if !c.consume_started {
+                // the buffers are taken at the first poll: everything written so far is in
+                c.consume_started = true;
+                for wr in c.writes.iter_mut().filter(|wr| wr.reg && !wr.late && wr.emitted == 0) {
+                    wr.consumed = true;
+                }
+            }
+            match fut.as_mut().poll(&mut cx) {
+                Poll::Pending => "pending".into(),
+                Poll::Ready(pairs) => {
+                    c.consume = None;
+                    let pairs: Vec<(usize, String)> = pairs.into_iter().map(|(i, s)| (i.into_inner(), s)).collect();
+                    let obs = format!(
+                        "done {}",
+                        show_list(pairs.iter().map(|(i, s)| format!("{i}:{}", hex(s.as_bytes()))).collect())
+                    );
+                    // oracle: every consumed value exactly once, under its id, decoding to the server's value
+                    let mut verdict: Option<&'static str> = None;
+                    let mut seen: Vec<usize> = vec![];
+                    for (id, data) in &pairs {
+                        let Some(wr) = c.writes.iter().find(|wr| wr.consumed && wr.id == *id) else {
+                            verdict = verdict.or(Some("consume-unknown-id"));
+                            continue;
+                        };
+                        if seen.contains(id) {
+                            verdict = verdict.or(Some("consume-twice"));
+                        }
+                        seen.push(*id);
+                        if !wr.completed {
+                            verdict = verdict.or(Some("consume-before-complete"));
+                        }
+                        if with_kind!(wr.kind, dec_status(&wr.raw, data)) != Status::Ok {
+                            verdict = verdict.or(Some("consume-mismatch"));
+                        }
+                    }
+                    if c.writes.iter().any(|wr| wr.consumed && !seen.contains(&wr.id)) {
+                        verdict = verdict.or(Some("consume-lost"));
+                    }
+                    c.consumed_pairs = Some(pairs);
+                    match verdict {
+                        Some(v) => format!("{obs} ## fail {v}"),
+                        None => format!("{obs} ## ok"),
+                    }
+                }
+            }
+        }
+        ["hydrate"] => {
+            // the client: the same creations, in the same order, for the regions that ran with the
+            // flag on; `read_data` answers from what the browser twin evaluated (or from the pairs)
+            let map: HashMap<usize, String> = match &c.consumed_pairs {
+                Some(pairs) => pairs.iter().cloned().collect(),
+                None => {
+                    let mut m = HashMap::new();
+                    for (id, v) in &c.js.assign_log {
+                        if let (Ok(id), Some(s)) = (usize::try_from(*id), cps_to_string(v)) {
+                            m.insert(id, s);
+                        }
+                    }
+                    m
+                }
+            };
+            let present: Vec<usize> = map.keys().copied().collect();
+            let real = if c.islands { HydrateSharedContext::new_islands() } else { HydrateSharedContext::new() };
+            let ctx: Arc<dyn SharedContext + Send + Sync> = Arc::new(MockHydrate { real, map });
+            let owner = Owner::new_root(Some(Arc::clone(&ctx)));
+            let fetches = Arc::new(AtomicUsize::new(0));
+            let mut keep: Vec<Box<dyn Any>> = vec![];
+            let mut shown = vec![];
+            let mut bad = false;
+            for cr in &c.created {
+                match cr {
+                    Created::BareId(true) => {
+                        ctx.next_id();
+                    }
+                    Created::Write(k, true) => {
+                        let wr = &c.writes[*k];
+                        let st = with_kind!(wr.kind, client_make(&owner, &ctx, wr.variant, &wr.raw, &fetches, &mut keep));
+                        shown.push(format!("{k}:{}", st.show()));
+                        if present.contains(&wr.id) && st != Status::Ok {
+                            bad = true;
+                        }
+                    }
+                    _ => {}
+                }
+            }
+            // let any (wrongly) started client-side load run
+            sched::run_until_idle(10_000);
+            let n = fetches.load(Ordering::SeqCst);
+            drop(keep);
+            drop(owner);
+            // (the client's pending loads stay parked in the executor table until the case ends)
+            format!(
+                "hydrate {} fetches={n} ## {}",
+                show_list(shown),
+                if bad { "fail client-value" } else { "ok" }
+            )
         }
         ["poll"] => {
             let Some(st) = c.stream.as_mut() else { return "skip".into() };
@@ -1069,10 +1778,41 @@ fn compute_tags(ops_path: &str) -> HashMap<String, String> {
             _ => {
                 let Some((_, t)) = cur.as_mut() else { continue };
                 match w.as_slice() {
-                    ["write", enc, h] => {
-                        t.push(if *enc == "json" { "json" } else { "str" });
-                        if let Some(s) = unhex_str(h) {
-                            payload_tags(t, &s, false, *enc == "json")
+                    ["write", kind, variant, h, ..] => {
+                        t.push(match *kind {
+                            "str" => "str",
+                            "jstr" => "jstr",
+                            "json" => "json",
+                            "slite" => "serde-lite",
+                            "mini" => "miniserde",
+                            "bytes" => "bytes",
+                            "rkyvs" | "rkyvi" => "rkyv",
+                            _ => "kind?",
+                        });
+                        t.push(match *variant {
+                            "d" => "direct",
+                            "ar" => "arc-resource",
+                            "r" => "resource",
+                            "ao" => "arc-once",
+                            "o" => "once",
+                            "sv" => "shared-value",
+                            _ => "variant?",
+                        });
+                        if *h == "-" {
+                            t.push("empty-value")
+                        }
+                        match (*kind, unhex(h)) {
+                            ("bytes", Some(b)) => {
+                                if b.iter().any(|x| *x >= 0xf8) || b.len() >= 48 {
+                                    t.push("b64-62-63")
+                                }
+                            }
+                            (_, Some(b)) => {
+                                if let Ok(s) = String::from_utf8(b) {
+                                    payload_tags(t, &s, false, *kind == "json" || *kind == "jstr")
+                                }
+                            }
+                            _ => {}
                         }
                     }
                     ["err", _, _, h] => {
@@ -1106,6 +1846,8 @@ fn compute_tags(ops_path: &str) -> HashMap<String, String> {
                     ["seal", _] => t.push("seal"),
                     ["inc", _] => t.push("incomplete"),
                     ["start"] => t.push("stream"),
+                    ["consume"] => t.push("consume-buffers"),
+                    ["hydrate"] => t.push("hydrate"),
                     _ => {}
                 }
             }
@@ -1233,40 +1975,82 @@ fn sanitize(s: &str, drop_lt: bool) -> String {
     out
 }
 
-struct Val {
-    enc: &'static str,
-    encoded: String,
-}
-
-fn gen_value(r: &mut Rng, safe: bool) -> Val {
-    match r.below(10) {
-        0..=4 => {
-            // Str codec (`Resource::new_str`: FromToStringCodec, `String::into_encoded_string`)
+/// one `write` op: `<kind> <variant> <value> [<encoded form for kinds the model does not encode>]`
+fn gen_write(r: &mut Rng, safe: bool) -> String {
+    let variant = *r.pick(&["d", "d", "d", "ar", "r", "ao", "o", "sv"]);
+    let text = |r: &mut Rng| {
+        if r.chance(1, 8) {
+            String::new() // the empty value is a value
+        } else {
             let s = gen_string(r, 8);
-            let s = if safe { sanitize(&s, true) } else { s };
-            Val { enc: "str", encoded: IntoEncodedString::into_encoded_string(s) }
+            if safe {
+                sanitize(&s, true)
+            } else {
+                s
+            }
         }
-        5..=7 => {
-            // JSON codec (`Resource::new`: JsonSerdeCodec)
-            let json = match r.below(3) {
-                0 => <JsonSerdeCodec as Encoder<String>>::encode(&gen_string(r, 8)).unwrap(),
-                1 => {
-                    let v: Vec<String> = (0..r.below(3)).map(|_| gen_string(r, 4)).collect();
-                    <JsonSerdeCodec as Encoder<Vec<String>>>::encode(&v).unwrap()
-                }
-                _ => {
-                    let v = serde_json::json!({ "k<": gen_string(r, 5), "n": r.below(1000), "o": [gen_string(r, 3), null, true] });
-                    <JsonSerdeCodec as Encoder<serde_json::Value>>::encode(&v).unwrap()
-                }
+    };
+    match r.below(16) {
+        0..=3 => format!("str {variant} {}", hex(text(r).as_bytes())), // Resource::new_str
+        4..=5 => format!("jstr {variant} {}", hex(text(r).as_bytes())), // Resource::new (JsonSerdeCodec)
+        6..=7 => {
+            let v = match r.below(3) {
+                0 => serde_json::json!(gen_string(r, 8)),
+                1 => serde_json::json!((0..r.below(3)).map(|_| gen_string(r, 4)).collect::<Vec<String>>()),
+                _ => serde_json::json!({ "k<": gen_string(r, 5), "n": r.below(1000), "o": [gen_string(r, 3), null, true] }),
             };
-            Val { enc: "json", encoded: IntoEncodedString::into_encoded_string(json) }
+            format!("json {variant} {}", hex(serde_json::to_string(&v).unwrap().as_bytes()))
+        }
+        8 => {
+            // Resource::new_serde_lite
+            let s = text(r);
+            let enc = <SerdeLite<JsonSerdeCodec> as Encoder<String>>::encode(&s).unwrap();
+            format!("slite {variant} {} {}", hex(s.as_bytes()), hex(enc.as_bytes()))
+        }
+        9 => {
+            // Resource::new_miniserde
+            let s = text(r);
+            let enc = <MiniserdeCodec as Encoder<String>>::encode(&s).unwrap();
+            format!("mini {variant} {} {}", hex(s.as_bytes()), hex(enc.as_bytes()))
+        }
+        10..=12 => {
+            // a binary codec: unpadded base64 on the wire
+            let bytes: Vec<u8> = match r.below(6) {
+                0 => vec![],
+                1 => {
+                    // every sextet 0..=63 once, starting anywhere
+                    let start = r.below(64);
+                    let sextets: Vec<u8> = (0..64).map(|i| ((start + i) % 64) as u8).collect();
+                    sextets
+                        .chunks(4)
+                        .flat_map(|c| [c[0] << 2 | c[1] >> 4, c[1] << 4 | c[2] >> 2, c[2] << 6 | c[3]])
+                        .collect()
+                }
+                2 => (0..r.below(9)).map(|_| *r.pick(&[0xfbu8, 0xff, 0xfe, 0x3e, 0x3f, 0x7e, 0x7f, 0x00])).collect(),
+                3 => {
+                    let mut b = gen_string(r, 4).into_bytes();
+                    b.extend(b"</script>\xe2\x80\xa8\x00");
+                    b
+                }
+                _ => (0..r.below(12)).map(|_| r.below(256) as u8).collect(),
+            };
+            format!("bytes {variant} {}", hex(&bytes))
+        }
+        13..=14 => {
+            // Resource::new_rkyv
+            let s = text(r);
+            let arch: Vec<u8> = <RkyvCodec as Encoder<String>>::encode(&s).unwrap();
+            format!("rkyvs {variant} {} {}", hex(s.as_bytes()), hex(&arch))
         }
         _ => {
-            // binary codecs travel as unpadded base64 (`Vec<u8>::into_encoded_string`)
-            let bytes: Vec<u8> = (0..r.below(12)).map(|_| r.below(256) as u8).collect();
-            let e = IntoEncodedString::into_encoded_string(bytes.clone());
-            debug_assert_eq!(<[u8] as FromEncodedStr>::from_encoded_str(&e).unwrap(), bytes);
-            Val { enc: "str", encoded: e }
+            let n: i64 = match r.below(4) {
+                0 => -(r.below(1000) as i64) - 1,
+                1 => r.next() as i64,
+                2 => 0,
+                _ => r.below(100000) as i64,
+            };
+            let arch: Vec<u8> = <RkyvCodec as Encoder<i64>>::encode(&n).unwrap();
+            format!("rkyvi {variant} {} {}", hex(n.to_string().as_bytes()), hex(&arch))
         }
     }
 }
@@ -1293,6 +2077,32 @@ fn permutations(n: usize) -> Vec<Vec<usize>> {
 }
 
 /// one streaming session; `order` = completion order of the registered writes
+/// the same session through the other server exit: `consume_buffers()`
+fn consume_ops(setup: &[String], order: &[usize], r: &mut Rng) -> Vec<String> {
+    let mut l: Vec<String> = setup.iter().filter(|x| !x.starts_with("err") && !x.starts_with("seal")).cloned().collect();
+    l.push("consume".into());
+    if r.chance(2, 3) {
+        l.push("cpoll".into());
+    }
+    let mut i = 0;
+    while i < order.len() {
+        let burst = 1 + if r.chance(1, 3) { r.below(3) } else { 0 };
+        for _ in 0..burst {
+            if i < order.len() {
+                l.push(format!("complete {}", order[i]));
+                i += 1;
+            }
+        }
+        if r.chance(2, 3) {
+            l.push("cpoll".into());
+        }
+    }
+    l.push("cpoll".into());
+    l.push("cpoll".into());
+    l.push("hydrate".into());
+    l
+}
+
 fn session_ops(setup: &[String], n_writes: usize, order: &[usize], r: &mut Rng, mid: &[String]) -> Vec<String> {
     let mut l: Vec<String> = setup.to_vec();
     l.push("start".into());
@@ -1323,9 +2133,13 @@ fn session_ops(setup: &[String], n_writes: usize, order: &[usize], r: &mut Rng, 
     }
     // drain: every registered write is complete now, so the stream must finish
     let _ = n_writes;
+    if r.chance(1, 10) {
+        l.push("hydrate".into()); // a client that starts before the last data chunks arrived
+    }
     for _ in 0..4 {
         l.push("poll".into());
     }
+    l.push("hydrate".into());
     l
 }
 
@@ -1434,10 +2248,11 @@ fn gen(seed: u64, n: usize, path: &str) -> std::io::Result<()> {
                     if r.chance(1, 5) {
                         setup.push("id".into()); // an error boundary taking an id in between
                     }
-                    let v = gen_value(&mut r, safe);
-                    setup.push(format!("write {} {}", v.enc, hex(v.encoded.as_bytes())));
-                    if hyd {
-                        registered.push(k);
+                    let w = gen_write(&mut r, safe);
+                    let shared = w.split_whitespace().nth(1) == Some("sv");
+                    setup.push(format!("write {w}"));
+                    if hyd && !shared {
+                        registered.push(k); // a SharedValue needs no `complete`
                     }
                     if r.chance(1, 6) {
                         let m = gen_string(&mut r, 6);
@@ -1465,11 +2280,17 @@ fn gen(seed: u64, n: usize, path: &str) -> std::io::Result<()> {
                         }
                     }
                 }
+                // which server exit: the `pending_data()` stream or `consume_buffers()`
+                let via_consume = r.chance(1, 4);
                 if registered.len() <= 4 && r.chance(1, 4) {
                     // all completion orders
                     for perm in permutations(registered.len()) {
                         let order: Vec<usize> = perm.iter().map(|&i| registered[i]).collect();
-                        let l = session_ops(&setup, nv, &order, &mut r, &mid);
+                        let l = if via_consume {
+                            consume_ops(&setup, &order, &mut r)
+                        } else {
+                            session_ops(&setup, nv, &order, &mut r, &mid)
+                        };
                         emit(&mut f, &l)?;
                         produced += 1;
                     }
@@ -1478,7 +2299,11 @@ fn gen(seed: u64, n: usize, path: &str) -> std::io::Result<()> {
                     for i in (1..order.len()).rev() {
                         order.swap(i, r.below(i + 1));
                     }
-                    let l = session_ops(&setup, nv, &order, &mut r, &mid);
+                    let l = if via_consume {
+                        consume_ops(&setup, &order, &mut r)
+                    } else {
+                        session_ops(&setup, nv, &order, &mut r, &mid)
+                    };
                     emit(&mut f, &l)?;
                     produced += 1;
                 }
@@ -1501,7 +2326,11 @@ fn main() {
                     Err(_) => "panic ## fail panic".into(),
                 }
             })
-            .unwrap()
+            .unwrap();
+            // tasks and owners go before the thread-locals they use
+            c.clear();
+            drop(c);
+            sched::reset();
         }
     }
 }
